@@ -88,7 +88,7 @@ def plan_for(pid, tier):
     if pid == "C10":
         common.update(life_module="BuildPool", life_cfg="BuildPoolQ.cfg" if q else "BuildPool.cfg", replay_args=["-nogc"], attr_all=True,
                       invariants=["BuildIndependent", "AllWF"])
-    P["C19"] = [("engfail", 3 if q else 12, 0)]
+    P["C19"] = [("engfail", 4 if q else 12, 0)]
     if pid == "C19":
         common.update(life_cfg="LifeVecQ.cfg", tags=("verif", "vectors"), attr_all=True, walks=40)
     P["C09"] = [("mergey", 8 if q else 120, 7), ("syn", 6 if q else 80, 6), ("rich", 4 if q else 60, 5), ("wide", 1 if q else 6, 5), ("leancross", 1 if q else 2, 0), ("sweep", 1 if q else 2, 0)]
